@@ -28,6 +28,7 @@ whole pass of the loop of `instance.Run`, the cli default and its wiring) and by
 -/
 import Pandora.Proofs.C04
 import Pandora.Proofs.C04Pool
+import Pandora.Proofs.C04Sim
 import Pandora.Bridge.Waiter
 
 namespace Pandora.Props.C04
@@ -495,6 +496,268 @@ theorem C04_pool_timing (toks : List Int) (steps : List PStep) (i : Nat)
       ∀ next, it.env.tok = some next → it.env.pick - next < maxOverdue) :=
   ⟨C04_no_early .fresh true _ _ hc, C04_not_discarded_if_fresh .fresh _ _ hc, C04_discarded_if_late _ _ hc hp⟩
 
+/-! ### progress (round 2): the closed world — time advances, timers fire, `Shoot` returns — and fair scheduling
+
+`simHist v d w t toks ps` (Model) is the history ONE instance produces when it draws the tokens `toks` one after the other starting
+at instant `t`, the clock advancing by the non-negative delays `ps` (loop overhead, reading lag, timer lag, response time), with
+no cancellation and ammo available. -/
+
+/-- Every history the closed world generates meets the clock hypotheses (`ClockOK`, `ReadAfterPick`) of the theorems above —
+for all token lists, delays and response times: the hypotheses are not only satisfiable, they hold in every world in which time
+advances and a timer does not fire early. -/
+theorem C04_sim_meets_hypotheses (v : Variant) (d : Bool) (w : Waiter) (t : Int) (toks : List Int) (ps : List Delays)
+    (hw : w.lastNow ≤ t) : ClockOK w (simHist v d w t toks ps) ∧ ReadAfterPick (simHist v d w t toks ps) :=
+  simHist_clockOK v d w t toks ps hw
+
+/-- Progress of the loop: in the closed world (delays described for at least as many passes as there are tokens) the loop of
+`instance.Run` ends through `IsFinished` after exactly one action per token, in schedule order — either variant,
+discard_overflow on or off. -/
+theorem C04_sim_terminates (v : Variant) (d : Bool) (w : Waiter) (t : Int) (toks : List Int) (ps : List Delays)
+    (hlen : toks.length ≤ ps.length) :
+    (runLoop v d w (simHist v d w t toks ps)).2 = .loopEnd ∧
+    (runLoop v d w (simHist v d w t toks ps)).1.map (fun ev => ev.iter.tok) = toks :=
+  runLoop_simHist v d w t toks ps hlen
+
+/-- time one pass costs: overheads plus the response -/
+def passCost (p : Delays) : Int := p.dPick + p.dNow + p.dArm + p.dLag + p.dur
+
+def sumCost : List Delays → Int
+  | [] => 0
+  | p :: ps => passCost p + sumCost ps
+
+/-- the end of the action of a generated pass is the instant `simNext` at which the next pass starts -/
+theorem endT_sim_head (d : Bool) (w' : Waiter) (it : Iter) (s : DiscardSample) :
+    endT (if fires d (isSlowDown w' false) = true then Ev.shoot it else Ev.discard it s) = simNext d w' it := by
+  unfold simNext
+  split <;> simp [endT]
+
+theorem sim_end_by_aux (v : Variant) (d : Bool) (M : Int) (toks : List Int) :
+    ∀ (w : Waiter) (t c : Int) (ps : List Delays), (∀ tok ∈ toks, tok ≤ M) → 0 ≤ c → t ≤ M + c →
+      ∀ k ev, (runLoop v d w (simHist v d w t toks ps)).1[k]? = some ev → endT ev ≤ M + c + sumCost (ps.take (k + 1)) := by
+  induction toks with
+  | nil => intro w t c ps _ _ _ k ev hk; simp [simHist, runLoop, simLast] at hk
+  | cons tok toks ih =>
+    intro w t c ps htoks hc ht k ev hk
+    cases ps with
+    | nil => simp [simHist, runLoop] at hk
+    | cons p ps =>
+      rw [runLoop_simHist_cons] at hk
+      have htok : tok ≤ M := htoks tok (by simp)
+      have hcost : 0 ≤ passCost p := by unfold passCost; omega
+      -- the end of this pass's action
+      have hend : simNext d (waitV v w (simIter t tok p).env).w (simIter t tok p) ≤ M + c + passCost p := by
+        unfold simNext passCost
+        simp only [simIter]
+        split <;> split <;> omega
+      cases k with
+      | zero =>
+        simp only [List.getElem?_cons_zero, Option.some.injEq] at hk
+        subst hk
+        rw [endT_sim_head]
+        simp only [List.take_succ_cons, List.take_zero, sumCost]
+        omega
+      | succ k =>
+        simp only [List.getElem?_cons_succ] at hk
+        have := ih _ _ (c + passCost p) ps (fun x hx => htoks x (by simp [hx])) (by omega) (by omega) k ev hk
+        simp only [List.take_succ_cons, sumCost]
+        omega
+
+/-- "Every token is eventually fired", with the time made explicit. discard_overflow OFF, closed world: the loop ends, every
+token of the schedule is fired (none discarded, in order), and the `k`-th shot is over by
+`max(start, last token time) + (the response times and overheads of the first k+1 passes)`: the length of the run depends on
+the target's response times, but every request is sent. -/
+theorem C04_sim_off_all_fired (v : Variant) (w : Waiter) (t T : Int) (toks : List Int) (ps : List Delays)
+    (hlen : toks.length ≤ ps.length) (htoks : ∀ tok ∈ toks, tok ≤ T) :
+    (runLoop v false w (simHist v false w t toks ps)).2 = .loopEnd ∧
+    (∀ ev ∈ (runLoop v false w (simHist v false w t toks ps)).1, ev.isShoot = true) ∧
+    (runLoop v false w (simHist v false w t toks ps)).1.map (fun ev => ev.iter.tok) = toks ∧
+    (∀ k ev, (runLoop v false w (simHist v false w t toks ps)).1[k]? = some ev →
+      endT ev ≤ max t T + sumCost (ps.take (k + 1))) := by
+  obtain ⟨h1, h2⟩ := runLoop_simHist v false w t toks ps hlen
+  refine ⟨h1, fun ev hev => ?_, h2, fun k ev hk => ?_⟩
+  · rw [C04_off, List.mem_map] at hev
+    obtain ⟨_, _, rfl⟩ := hev
+    rfl
+  · have := sim_end_by_aux v false (max t T) toks w t 0 ps (fun x hx => Int.le_trans (htoks x hx) (Int.le_max_right t T))
+      (Int.le_refl 0) (by have := Int.le_max_left t T; omega) k ev hk
+    omega
+
+theorem chainBound_shift (B step : Int) (k : Nat) : chainBound (B + step) step k = chainBound B step (k + 1) := by
+  induction k with
+  | zero => simp [chainBound]
+  | succ k ih => simp only [chainBound, ih]
+
+theorem sim_on_aux (start D R ε δ : Int) (hε : 0 ≤ ε) (hδ : 0 ≤ δ) (hR : 0 ≤ R) (toks : List Int) :
+    ∀ (w : Waiter) (t B' : Int) (ps : List Delays), w.lastNow ≤ t → (∀ tok ∈ toks, tok ≤ start + D) →
+      (∀ p ∈ ps, (p.dur : Int) ≤ R ∧ (p.dPick : Int) ≤ δ ∧ (p.dNow : Int) + p.dArm + p.dLag ≤ ε) →
+      start + D + maxOverdue + ε + R ≤ B' → t ≤ B' →
+      ∀ k ev, (runLoop .fresh true w (simHist .fresh true w t toks ps)).1[k]? = some ev → endT ev ≤ chainBound B' (δ + ε) k := by
+  have hm : (0 : Int) ≤ maxOverdue := by decide
+  induction toks with
+  | nil => intro w t B' ps _ _ _ _ _ k ev hk; simp [simHist, runLoop, simLast] at hk
+  | cons tok toks ih =>
+    intro w t B' ps hw htoks hps hB ht k ev hk
+    cases ps with
+    | nil => simp [simHist, runLoop] at hk
+    | cons p ps =>
+      rw [runLoop_simHist_cons] at hk
+      have htok : tok ≤ start + D := htoks tok (by simp)
+      obtain ⟨hp1, hp2, hp3⟩ := hps p (by simp)
+      -- the action of this pass is over by B' + δ + ε
+      have hend : simNext true (waitV .fresh w (simIter t tok p).env).w (simIter t tok p) ≤ B' + (δ + ε) := by
+        unfold simNext
+        by_cases hfire : fires true (isSlowDown (waitV .fresh w (simIter t tok p).env).w false) = true
+        · have hlt := sim_fired_lt w t tok p hw hfire
+          simp only [hfire, ↓reduceIte]
+          simp only [simIter] at hlt ⊢
+          split <;> omega
+        · simp only [hfire, Bool.false_eq_true, ↓reduceIte]
+          simp only [simIter]
+          split <;> omega
+      cases k with
+      | zero =>
+        simp only [List.getElem?_cons_zero, Option.some.injEq] at hk
+        subst hk
+        rw [endT_sim_head]
+        simp only [chainBound]
+        exact hend
+      | succ k =>
+        simp only [List.getElem?_cons_succ] at hk
+        have hw' := sim_lastNow_le .fresh true w t tok p hw
+        have := ih _ _ (B' + (δ + ε)) ps hw' (fun x hx => htoks x (by simp [hx])) (fun x hx => hps x (by simp [hx]))
+          (by omega) hend k ev hk
+        rw [chainBound_shift] at this
+        exact this
+
+/-- The length of a WHOLE run of an instance, discard_overflow ON, closed world (REPAIRED `Wait`), with no hypothesis left about
+the history: if the tokens lie in `[_, start + D]`, every response takes at most `R`, the loop overhead before a pick-up is at
+most `δ` and reading + arming + timer lag at most `ε`, and the instance starts before `B = start + D + 2 s + ε + R`, then the loop
+ends, every token is acted on once, and the `k`-th action (Shoot until its response, or discard report) is over by
+`B + (k+1)(δ+ε)` — however slow the target is: response times enter only through `R`, once. -/
+theorem C04_sim_run_bounded (w : Waiter) (t start D R ε δ : Int) (toks : List Int) (ps : List Delays)
+    (hε : 0 ≤ ε) (hδ : 0 ≤ δ) (hR : 0 ≤ R) (hlen : toks.length ≤ ps.length) (hw : w.lastNow ≤ t)
+    (htoks : ∀ tok ∈ toks, tok ≤ start + D)
+    (hps : ∀ p ∈ ps, (p.dur : Int) ≤ R ∧ (p.dPick : Int) ≤ δ ∧ (p.dNow : Int) + p.dArm + p.dLag ≤ ε)
+    (ht : t ≤ start + D + maxOverdue + ε + R) :
+    (runLoop .fresh true w (simHist .fresh true w t toks ps)).2 = .loopEnd ∧
+    (runLoop .fresh true w (simHist .fresh true w t toks ps)).1.map (fun ev => ev.iter.tok) = toks ∧
+    (∀ k ev, (runLoop .fresh true w (simHist .fresh true w t toks ps)).1[k]? = some ev →
+      endT ev ≤ chainBound (start + D + maxOverdue + ε + R) (δ + ε) k) := by
+  obtain ⟨h1, h2⟩ := runLoop_simHist .fresh true w t toks ps hlen
+  exact ⟨h1, h2, sim_on_aux start D R ε δ hε hδ hR toks w t _ ps hw htoks hps (Int.le_refl _) ht⟩
+
+/-- Fair scheduling ⇒ progress of a pool: in a run without cancellation and with ammo available, an instance that has been
+scheduled `2·|profile| + 2` times (each step = one schedule access that completes: the timer fired, `Shoot` returned) has left its
+loop — whatever the other instances did in between — and then the WHOLE profile has been handed out and every instance has acted
+exactly once on each token it drew. So "every token is eventually fired" (off) / "fired or discarded" (on) holds for every
+instance count under every fair interleaving. -/
+theorem C04_pool_progress (v : Variant) (d : Bool) (toks : List Int) (steps : List PStep) (hs : ∀ s ∈ steps, Calm s) (i : Nat)
+    (hfair : 2 * toks.length + 2 ≤ stepsOf steps i) :
+    (prun (PState.init toks) steps).phase i = .exited ∧
+    (prun (PState.init toks) steps).sched = [] ∧
+    (prun (PState.init toks) steps).out.map Prod.snd = toks ∧
+    (∀ j, (poolEvents v d toks steps j).map (fun ev => ev.iter.tok) = ownToks (prun (PState.init toks) steps) j) := by
+  have hex : (prun (PState.init toks) steps).phase i = .exited := by
+    apply phi_eq_zero
+    rcases phi_prun (PState.init toks) steps i hs with h | h
+    · have := phi_init toks i
+      omega
+    · exact h
+  obtain ⟨h1, h2⟩ := (C04_pool_off_all_fired v toks steps hs).2.2 i hex
+  exact ⟨hex, h1, h2, fun j => C04_pool_each_token_acted_once v d toks steps hs j⟩
+
+/-! ### the cancellation corner, bounded (round 2) -/
+
+/-- What the cancellation corner of `C04_discarded_if_late` can cost. A done context stays done (`CtxMono`: once `IsSlowDown` has
+seen it done, `IsFinished` sees it done at the next loop head). Then a token that is fired although it was two seconds or more late
+when picked up (a) was fired in a pass in which `IsSlowDown` saw the run context done, and (b) is the LAST action of that instance:
+a cancelled run fires at most one such token per instance and ends with it. -/
+theorem C04_cancel_one_late_shot (w : Waiter) (h : List Iter) (hc : ClockOK w h) (hp : ReadAfterPick h) (hm : CtxMono h) :
+    ∀ it, Ev.shoot it ∈ (runLoop .fresh true w h).1 → ∀ next, it.env.tok = some next → maxOverdue ≤ it.env.pick - next →
+      it.ctxDoneSlow = true ∧ (runLoop .fresh true w h).1.getLast? = some (Ev.shoot it) := by
+  intro it hev next htok hlate
+  have hctx : it.ctxDoneSlow = true := by
+    by_cases hx : it.ctxDoneSlow = true
+    · exact hx
+    · have := C04_discarded_if_late w h hc hp it hev (by simpa using hx) next htok
+      omega
+  exact ⟨hctx, runLoop_ctxDoneSlow_last .fresh true w h hm _ hev hctx⟩
+
+/-- Which theorems describe which pool: the regenerated `buildNewInstanceSchedule` gives every instance its own schedule iff
+`rps-per-instance` is set (then each instance is a single-instance run: `C04_no_early` … `C04_sim_run_bounded` per instance) and
+otherwise ONE schedule created once for all instances — the shared schedule of `pstep`/`prun` (`C04_pool_*`); `newInstance` hands
+exactly that schedule to the instance, whose `Run` builds its Waiter over it (`C04_loop_is_source`). -/
+theorem C04_pool_schedule_is_source (perInstance : Bool) :
+    Gen.Waiter.scheduleKind perInstance = scheduleKind perInstance ∧
+    scheduleKind false = .shared ∧ scheduleKind true = .own ∧
+    (∀ w ∈ Gen.Waiter.sharedScheduleWrappers, w = "coreutil.NewCallbackOnFinishSchedule") ∧
+    Gen.Waiter.instanceScheduleFrom = "deps.newSchedule()" :=
+  ⟨Bridge.Waiter.scheduleKind_eq perInstance, rfl, rfl, Bridge.Waiter.schedule_wiring.1, Bridge.Waiter.schedule_wiring.2⟩
+
+/-! ### the user documentation (round 2) -/
+
+/-- The anchored documentation docs/eng/best_practices/discard-overflow.md, re-read on every check, promises exactly the constants
+the theorems are about: the option is the regenerated config key `discard_overflow`; "enabled by default" is the regenerated
+`readConfig` default (`C04_default_on`); "net error 777", "tagged as discarded" and the "2 second" window are the regenerated
+`DiscardedShootCodeError`, `DiscardedShootTag` and `MaxOverdueDuration` = `maxOverdue` of `C04_discarded_if_late` /
+`C04_not_discarded_if_fresh` / `C04_discard_sample`. -/
+theorem C04_doc_is_source :
+    Gen.Waiter.docOptionKeys = ["discard_overflow"] ∧ Gen.Waiter.docOptionKeys = [Gen.Waiter.poolConfigDiscardKey] ∧
+    Gen.Waiter.docDefault = effectiveDiscard none ∧
+    (∀ c ∈ Gen.Waiter.docNetCodes, c = discardNetCode ∧ c = discardedShootSample.net) ∧ Gen.Waiter.docNetCodes ≠ [] ∧
+    (∀ t ∈ Gen.Waiter.docTags, t = discardTag ∧ t = discardedShootSample.tags) ∧ Gen.Waiter.docTags ≠ [] ∧
+    (∀ n ∈ Gen.Waiter.docWindowSeconds, n * 1000000000 = maxOverdue) ∧ Gen.Waiter.docWindowSeconds ≠ [] := by
+  obtain ⟨h1, h2, h3, h4, h5, h6, h7, h8⟩ := Bridge.Waiter.doc_agrees
+  refine ⟨?_, h1, ?_, fun c hc => ?_, h3, fun t ht => ?_, h5, fun n hn => ?_, h7⟩
+  · rw [h1]; exact Bridge.Waiter.cli_default_wiring.2.2.1 ▸ rfl
+  · rw [h2, Bridge.Waiter.cliPoolDiscardOverflow_eq]
+  · have := h4 c hc; rw [Bridge.Waiter.DiscardedShootCodeError_eq] at this; exact ⟨this, this⟩
+  · have := h6 t ht; rw [Bridge.Waiter.DiscardedShootTag_eq] at this; exact ⟨this, this⟩
+  · have := h8 n hn; rw [Bridge.Waiter.MaxOverdueDuration_eq] at this; exact this
+
+/-! ### `Time.Sub` saturation (round 2) -/
+
+/-- the instants of one `Wait` call lie in a window `[lo, hi]` of at most 2^63-1 ns (292 years) that begins after year 1; the cached
+reading is either still the zero `time.Time` or inside the window -/
+def InWindow (lo hi : Int) (w : Waiter) (e : Env) : Prop :=
+  zeroTime < lo ∧ hi - lo ≤ maxDuration ∧ (w.lastNow = zeroTime ∨ (lo ≤ w.lastNow ∧ w.lastNow ≤ hi)) ∧
+    lo ≤ e.now ∧ e.now ≤ hi ∧ ∀ next ∈ e.tok, lo ≤ next ∧ next ≤ hi
+
+instance (lo hi : Int) (w : Waiter) (e : Env) : Decidable (InWindow lo hi w e) := by unfold InWindow; exact inferInstance
+
+/-- `Wait` computed with Go's SATURATING `Time.Sub` is `Wait` computed with exact subtraction — state, result and path, both
+variants — for every call whose instants lie in such a window, and the window invariant is kept by the call. So reading `Time.Sub`
+as exact subtraction (as the model and the regenerated `Wait` do) loses nothing for runs shorter than 292 years. -/
+theorem C04_sub_saturation (v : Variant) (lo hi : Int) (w : Waiter) (e : Env) (h : InWindow lo hi w e) :
+    waitVWith satSub v w e = waitV v w e ∧ waitVWith timeSub v w e = waitV v w e ∧
+    ((waitV v w e).w.lastNow = zeroTime ∨ (lo ≤ (waitV v w e).w.lastNow ∧ (waitV v w e).w.lastNow ≤ hi)) := by
+  obtain ⟨hz, hspan, hl, hn1, hn2, htok⟩ := h
+  have hmax : maxDuration = 9223372036854775807 := rfl
+  have hmin : minDuration = -9223372036854775808 := rfl
+  have hzero : zeroTime = -62135596800000000000 := rfl
+  refine ⟨?_, rfl, ?_⟩
+  · unfold waitVWith waitV
+    by_cases hc : e.ctxDone = true
+    · simp [hc]
+    · cases ht : e.tok with
+      | none => simp [hc]
+      | some next =>
+        obtain ⟨ht1, ht2⟩ := htok next (by simp [ht])
+        -- against the reading of this call the subtraction is exact in both directions
+        have e1 : satSub next e.now = timeSub next e.now := satSub_exact _ _ (by omega) (by omega)
+        have e2 : satSub e.now next = timeSub e.now next := satSub_exact _ _ (by omega) (by omega)
+        simp only [hc, Bool.false_eq_true, ↓reduceIte, e1, e2]
+        rcases hl with hl | hl
+        · -- `lastNow` is still the zero time: `next.Sub(zero)` saturates, but only its sign is used (positive either way)
+          have s1 : ¬ satSub next w.lastNow ≤ 0 := by rw [hl]; exact satSub_pos _ _ (by omega)
+          have s2 : ¬ timeSub next w.lastNow ≤ 0 := by rw [hl]; unfold timeSub; omega
+          simp [s1, s2]
+        · have e3 : satSub next w.lastNow = timeSub next w.lastNow := satSub_exact _ _ (by omega) (by omega)
+          simp only [e3]
+  · rcases waitV_lastNow v w e with h1 | h1 <;> rw [h1]
+    · exact hl
+    · exact Or.inr ⟨hn1, hn2⟩
+
 /-! ### non-vacuity: concrete histories meeting the hypotheses, with the conclusions exercised -/
 
 /-- const 10 rps, 1 s responses, one instance: tokens at 0, 0.1, 0.2, 0.3 s picked up at 0, 1, 2, 3 s -/
@@ -564,5 +827,56 @@ example : ownToks (prun (PState.init [0, 100000000, 200000000]) pdemo) 0 = [0, 2
     (poolEvents .fresh false [0, 100000000, 200000000] pdemo 0).length = 2 := by decide
 example : ClockOK Waiter.init ((prun (PState.init [0, 100000000, 200000000]) pdemo).hist 0) ∧
     ReadAfterPick ((prun (PState.init [0, 100000000, 200000000]) pdemo).hist 0) := by decide
+
+end Pandora.Props.C04
+
+namespace Pandora.Props.C04
+open Pandora.Go.C04 Pandora.Model.C04 Pandora.Proofs.C04
+
+/-! ### non-vacuity, round 2 -/
+
+/-- a closed world: const 10 rps for 0.5 s (tokens 0 … 0.4 s), one instance, responses 1 s, 1 s, 3 s, 0, 0; 1 µs loop overhead, 2 µs
+reading lag -/
+def simToks : List Int := [0, 100000000, 200000000, 300000000, 400000000]
+def simDelays : List Delays :=
+  [ { dPick := 1000, dNow := 2000, dur := 1000000000 }, { dPick := 1000, dNow := 2000, dur := 1000000000 },
+    { dPick := 1000, dNow := 2000, dur := 3000000000 }, { dPick := 1000, dNow := 2000 }, { dPick := 1000, dNow := 2000 } ]
+
+/-- on: fired, fired (0.9 s late), fired (1.8 s late), DISCARDED (4.7 s late), DISCARDED; the loop ends -/
+example : (runLoop .fresh true Waiter.init (simHist .fresh true Waiter.init 0 simToks simDelays)).1.map Ev.isShoot =
+    [true, true, true, false, false] ∧
+    (runLoop .fresh true Waiter.init (simHist .fresh true Waiter.init 0 simToks simDelays)).2 = .loopEnd := by decide
+/-- off: all five fired -/
+example : (runLoop .fresh false Waiter.init (simHist .fresh false Waiter.init 0 simToks simDelays)).1.map Ev.isShoot =
+    [true, true, true, true, true] := by decide
+/-- hypotheses of `C04_sim_run_bounded` (start 0, D = 0.4 s, R = 3 s, ε = 2 µs, δ = 1 µs) and of `C04_sim_off_all_fired` -/
+example : simToks.length ≤ simDelays.length ∧ Waiter.init.lastNow ≤ 0 ∧ (∀ tok ∈ simToks, tok ≤ 0 + 400000000) ∧
+    (∀ p ∈ simDelays, (p.dur : Int) ≤ 3000000000 ∧ (p.dPick : Int) ≤ 1000 ∧ (p.dNow : Int) + p.dArm + p.dLag ≤ 2000) ∧
+    (0 : Int) ≤ 0 + 400000000 + maxOverdue + 2000 + 3000000000 := by decide
+/-- a timer-path world: the token lies 1 s ahead, the timer fires 5 µs late; the shot is not early -/
+example : (runLoop .fresh true Waiter.init (simHist .fresh true Waiter.init 0 [1000000000] [{ dNow := 10, dArm := 20, dLag := 5000 }])).1.map
+    (fun ev => ev.iter.env.ret) = [1000005020] := by decide
+
+/-- `C04_sub_saturation`: the first call of a run (cached reading = zero time) in a window of one day starting in 2026 -/
+example : InWindow 1790000000000000000 1790086400000000000 Waiter.init
+    { tok := some 1790000001000000000, now := 1790000003500000000, arm := 1790000003500000000, ret := 1790000003500000000 } ∧
+    satSub 1790000001000000000 Waiter.init.lastNow = maxDuration ∧
+    timeSub 1790000001000000000 Waiter.init.lastNow ≠ maxDuration := by decide
+
+/-- `C04_pool_progress`: in `pdemo` (3 tokens) instance 0 moves 6 times... the hypothesis needs 8: a longer fair run -/
+def pfair : List PStep := (List.range 16).map (fun k => ({ inst := k % 2 } : PStep))
+example : (∀ s ∈ pfair, Calm s) ∧ 2 * [0, 100000000, 200000000].length + 2 ≤ stepsOf pfair 0 ∧
+    (prun (PState.init [0, 100000000, 200000000]) pfair).phase 0 = .exited ∧
+    (prun (PState.init [0, 100000000, 200000000]) pfair).phase 1 = .exited := by decide
+
+/-- `C04_cancel_one_late_shot`: a run cancelled while the instance is in its second shot; the third token (3 s late) is picked
+up, `IsSlowDown` sees the done context, the token is fired, and the loop ends at the next `IsFinished` -/
+def cancelDemo : List Iter :=
+  [ { env := { tok := some 0, pick := 0, now := 0, arm := 0, ret := 0 }, dur := 1000000000 },
+    { env := { tok := some 100000000, pick := 1000000000, now := 1000000000, arm := 1000000000, ret := 1000000000 }, dur := 2100000000 },
+    { env := { tok := some 200000000, pick := 3200000000, now := 3200000000, arm := 3200000000, ret := 3200000000 }, ctxDoneSlow := true },
+    { finished := true, env := { pick := 3300000000, now := 3300000000, arm := 3300000000, ret := 3300000000 } } ]
+example : ClockOK Waiter.init cancelDemo ∧ ReadAfterPick cancelDemo ∧ CtxMono cancelDemo ∧
+    (runLoop .fresh true Waiter.init cancelDemo).1.map Ev.isShoot = [true, true, true] := by decide
 
 end Pandora.Props.C04
